@@ -6,6 +6,7 @@ import (
 	"os"
 	"strconv"
 	"strings"
+	"sync/atomic"
 	"time"
 
 	"harness/enga"
@@ -637,6 +638,43 @@ func check(run *enga.Run) *sim.Violation {
 // shared with C01): one list lives through 2^32+8 REAL push/pop pairs - past every 32-bit
 // boundary an implementation might keep its counters in - and is then driven against a slice
 // model.  About four minutes on one core.
+// bigBacklog: the list is unbounded - 2^24+5 values stored at once (no popper running), then
+// taken out again in order.  Runs in a goroutine of its own so that a Push that never returns is
+// reported instead of hanging the check.
+func bigBacklog() string {
+	l := listz.NewSync[int]()
+	const n = 1<<24 + 5
+	done := make(chan string, 1)
+	var stored int64
+	go func() {
+		for i := 0; i < n; i++ {
+			l.Push(i)
+			atomic.StoreInt64(&stored, int64(i+1))
+		}
+		if L := l.Len(); L != n {
+			done <- fmt.Sprintf("big backlog: %d values pushed, none popped, nothing in flight: Len() = %d", n, L)
+			return
+		}
+		for i := 0; i < n; i++ {
+			if v, ok := l.Pop(); !ok || v != i {
+				done <- fmt.Sprintf("big backlog: Pop number %d of %d returned (%d,%v)", i+1, n, v, ok)
+				return
+			}
+		}
+		if L := l.Len(); L != 0 {
+			done <- fmt.Sprintf("big backlog: everything popped again: Len() = %d", L)
+			return
+		}
+		done <- ""
+	}()
+	select {
+	case f := <-done:
+		return f
+	case <-time.After(180 * time.Second):
+		return fmt.Sprintf("big backlog: a Push (or Pop) has not returned for minutes with %d values stored and nobody else using the list", atomic.LoadInt64(&stored))
+	}
+}
+
 func longLife(path string) {
 	type result struct {
 		Pairs       uint64  `json:"pairs"`
@@ -646,9 +684,13 @@ func longLife(path string) {
 	}
 	start := time.Now()
 	res := result{}
+	res.Failure = bigBacklog()
 	l := listz.NewSync[int]()
 	n := uint64(1)<<32 + 8
-	for i := uint64(0); i < n; i++ {
+	if v, err := strconv.ParseUint(os.Getenv("VERIF_LONGLIFE_PAIRS"), 10, 64); err == nil && v > 0 {
+		n = v // (for trying the other phases out without the long wait)
+	}
+	for i := uint64(0); i < n && res.Failure == ""; i++ {
 		l.Push(int(i))
 		v, ok := l.Pop()
 		if !ok || v != int(i) {
